@@ -82,6 +82,15 @@ mut("C18-set-channel-skips-meta", REL, "        for msg in self._messages:\n    
     "        for msg in self._messages:\n            if msg.note is not None or msg.message_type == MessageType.WAIT:\n                msg.channel = channel", ["C18"])
 mut("C18-pad-no-invalidate", SEQ, "        self.rel.pad(padding_length)\n        self.invalidate_abs()", "        self.rel.pad(padding_length)", ["C18", "C04"])
 
+# C17
+mut("C17-duration-dropped", ABS, "if self_msg.note != other_msg.note or self_msg_value != other_msg_value:", "if self_msg.note != other_msg.note:", ["C17"])
+mut("C17-velocity-on-off", ABS, "if self_msg.velocity != other_msg.velocity and not ignore_velocity:", "if self_msgs[1].velocity != other_msgs[1].velocity and not ignore_velocity:", ["C17"])
+mut("C17-flag-wrong-type", ABS, "        if ignore_key_signature:\n            message_types.remove(MessageType.KEY_SIGNATURE)", "        if ignore_key_signature:\n            message_types.remove(MessageType.TIME_SIGNATURE) if MessageType.TIME_SIGNATURE in message_types else None", ["C17"])
+mut("C17-length-check-dropped", ABS, "        if not len(self_pairings) == len(other_pairings):\n            return False\n", "", ["C17"])
+mut("C17-key-compare-dropped", ABS, "                if self_msg.key != other_msg.key:\n                    return False", "                pass", ["C17"])
+mut("C17-channel-flag-inverted", ABS, "if self_channel != other_channel and not ignore_channel:", "if self_channel != other_channel and ignore_channel:", ["C17"])
+mut("C17-denominator-dropped", ABS, "if self_msg.numerator != other_msg.numerator or self_msg.denominator != other_msg.denominator:", "if self_msg.numerator != other_msg.numerator:", ["C17"])
+
 
 def run(cmd, env):
     p = subprocess.run(cmd, cwd=ROOT, env=env, capture_output=True, text=True)
